@@ -72,6 +72,20 @@ def view_merge(cur, rec):
     return rec
 
 
+_FROZEN = []
+
+
+def _gc():
+    """a full collection; whatever was alive when the first one is requested (the conformance graph, the modules) is
+    moved out of the collector's sight first, so that later ones only look at what the scenarios allocate"""
+    import gc
+    if not _FROZEN:
+        gc.collect()
+        gc.freeze()
+        _FROZEN.append(1)
+    gc.collect()
+
+
 class MetricsDriver:
     def __init__(self, mtypes):
         self.mtypes = tuple(mtypes)
@@ -87,6 +101,7 @@ class MetricsDriver:
         self.depth = {str(t): 0 for t in range(1, self.nt + 1)}
         self.cblog = {s: [] for s in range(1, self.ns + 1)}
         self.objs = {}
+        self.made = set()
         self.errors = []
         self.w.start("1")
 
@@ -141,6 +156,22 @@ class MetricsDriver:
             w.do(str(t), "xscope", k == "a", sid, "metric-scope", dict(completion=cb))
             self.depth[str(t)] += 1
             return self._obs("open", self._res(t))
+        if name == "Make":
+            # the scope object is made now (registered under the maker's current scope), kept, and entered later - maybe by
+            # another task; it carries no completion callback
+            t, k = args
+            self.nsid += 1
+            self.made.add(self.nsid)
+            w.do(str(t), "prepare", "ascope" if k == "a" else "sscope", self.nsid, [])
+            return self._obs("make", self._res(t))
+        if name == "EnterMade":
+            t = args[0]
+            # nothing but the library itself keeps the scopes above the made one alive: a garbage collection right here
+            # must not lose them
+            _gc()
+            w.do(str(t), "enterprep")
+            self.depth[str(t)] += 1
+            return self._obs("enter", self._res(t))
         if name == "Close":
             t = args[0]
             w.do(str(t), "leave", "return")
@@ -191,7 +222,7 @@ class MetricsDriver:
                 m = self.objs.get(s)
                 if m is None:
                     cb.append(())
-                    if s <= self.nsid:
+                    if s <= self.nsid and s not in self.made:
                         incomplete = True
                     continue
                 own, view = self._snapshot(m)
@@ -218,6 +249,7 @@ def gen_trace(rnd, mtypes, ntasks=4, nscopes=8, nops=30, records=True):
     born = 1
     nsid = 0
     opened = set()
+    made = None   # (sid, kind) of the scope object that was made and is not entered yet
 
     def tg_of(t):
         for sid, k in reversed(stack[t]):
@@ -238,6 +270,10 @@ def gen_trace(rnd, mtypes, ntasks=4, nscopes=8, nops=30, records=True):
             ch = [("Tick", [])]
             if nsid < nscopes and len(stack[t]) < 4:
                 ch += [("Open", [t, rnd.choice(["s", "a"])])] * 4
+                if made is None:
+                    ch += [("Make", [t, rnd.choice(["s", "a"])])]
+            if made is not None and len(stack[t]) < 4:
+                ch += [("EnterMade", [t])] * 2
             if stack[t]:
                 sid, k = stack[t][-1]
                 ch += [("Close", [t])] * 3
@@ -255,6 +291,13 @@ def gen_trace(rnd, mtypes, ntasks=4, nscopes=8, nops=30, records=True):
                 nsid += 1
                 stack[t].append((nsid, args[1]))
                 opened.add(nsid)
+            elif name == "Make":
+                nsid += 1
+                made = (nsid, args[1])
+            elif name == "EnterMade":
+                stack[t].append(made)
+                opened.add(made[0])
+                made = None
             elif name == "Close":
                 sid, k = stack[t].pop()
                 opened.discard(sid)
@@ -279,10 +322,10 @@ def gen_trace(rnd, mtypes, ntasks=4, nscopes=8, nops=30, records=True):
 
 def trace_kw(mtypes):
     return dict(
-        variables=["par", "kids", "phase", "kind", "done", "born", "doneAt", "cbq", "cblog", "vals", "cur", "tg", "stack",
+        variables=["par", "kids", "phase", "mk", "kind", "done", "born", "doneAt", "cbq", "cblog", "vals", "cur", "tg", "stack",
                    "saved", "grp", "alive", "wait", "now", "nrec", "nops", "drained", "obs"],
         constants=dict(NTasks=4, N=8, MaxOps=100000, MaxRec=100000, MaxT=100000,
-                       MTypes="{" + ", ".join(f'"{m}"' for m in mtypes) + "}", Kinds='{"s", "a"}', Bug='"none"'),
-        config_vars=[], actions=dict(Open=2, Close=1, Start=3, End=1, Tick=0, Record=2, Drain=0),
+                       MTypes="{" + ", ".join(f'"{m}"' for m in mtypes) + "}", Kinds='{"s", "a"}', Prep="TRUE", Bug='"none"'),
+        config_vars=[], actions=dict(Open=2, Make=2, EnterMade=1, Close=1, Start=3, End=1, Tick=0, Record=2, Drain=0),
         internal="Internal", quiet="M!Rest",
         invariants=["CbAtMostOnce", "CbAfterSubtree", "CbAfterMembers", "CbSeesCompleted", "ExitNeverFails", "FoldOrder"])
